@@ -379,6 +379,144 @@ vf::Result check(const Case& cs) {
 
 } // namespace
 
+// ---- the audio port next to a timer on one CoreTiming: the bulk advance as the core uses it -------------------------------
+// CoreTiming::Skip(max) must leave the port (frames delivered, flags, interrupts, later frame times) exactly where that many
+// CoreTiming::Tick() calls leave the twin -- also while the transmitter runs with an empty queue (a silent frame per period).
+#include "timer.h"
+struct POp {
+    int kind = 0; // 0 send n words, 1 enable/disable, 2 tick n, 3 CoreTiming::Skip(max), 4 flush, 5 restart the companion timer
+    uint64_t a = 0;
+};
+struct PCase {
+    uint32_t period = 100;
+    std::vector<POp> ops;
+};
+struct PairSut {
+    Teakra::CoreTiming ct;
+    Teakra::Timer tm{ct};
+    Teakra::Btdmp b{ct};
+    std::vector<Frame> frames;
+    uint64_t irqs = 0, tirqs = 0, now = 0;
+    PairSut() {
+        b.SetAudioCallback([this](std::array<std::int16_t, 2> s) {
+            frames.push_back({s[0], s[1]}); // (when inside a bulk advance a frame falls is not observable; how many per operation is)
+        });
+        b.SetInterruptHandler([this] { ++irqs; });
+        tm.SetInterruptHandler([this] { ++tirqs; });
+    }
+};
+std::string pencode(const PCase& c) {
+    std::string s = "period " + vf::hex(c.period) + "\n";
+    for (auto& op : c.ops)
+        s += "p " + vf::hex(op.kind) + " " + vf::hex(op.a) + "\n";
+    return s;
+}
+PCase pdecode(const std::string& text) {
+    PCase c;
+    for (auto& l : vf::lines(text)) {
+        auto t = vf::split_ws(l);
+        if (t.size() >= 2 && t[0] == "period")
+            c.period = std::max<uint32_t>(1, (uint32_t)vf::unhex(t[1]) & 0xFFFF);
+        else if (t.size() >= 3 && t[0] == "p") {
+            POp op;
+            op.kind = (int)(vf::unhex(t[1]) % 6);
+            op.a = vf::unhex(t[2]);
+            c.ops.push_back(op);
+        }
+    }
+    return c;
+}
+vf::Result pcheck(const PCase& cs) {
+    PairSut A, B;
+    for (PairSut* s : {&A, &B}) {
+        s->b.SetTransmitPeriod((u16)cs.period);
+        s->tm.count_mode = Teakra::Timer::CountMode::FreeRunning;
+    }
+    std::string trace = "period " + std::to_string(cs.period) + ": ";
+    uint16_t serial = 1;
+    bool nontrivial = false;
+    auto fail = [&](const std::string& sig, const std::string& what, size_t i) {
+        return vf::Result::fail(sig, what + " at op " + std::to_string(i) + " (" + trace + ")");
+    };
+    for (size_t i = 0; i < cs.ops.size(); ++i) {
+        const POp& op = cs.ops[i];
+        try {
+            switch (op.kind) {
+            case 0:
+                for (uint64_t k = 0; k < 1 + op.a % 5; ++k, ++serial) {
+                    A.b.Send(serial);
+                    B.b.Send(serial);
+                }
+                trace += "send*" + std::to_string(1 + op.a % 5) + " ";
+                break;
+            case 1:
+                A.b.SetTransmitEnable(op.a % 4 != 0);
+                B.b.SetTransmitEnable(op.a % 4 != 0);
+                trace += std::string("enable=") + (op.a % 4 != 0 ? "1 " : "0 ");
+                break;
+            case 2:
+                for (uint64_t k = 0; k < 1 + op.a % 7; ++k) {
+                    ++A.now;
+                    A.ct.Tick();
+                    ++B.now;
+                    B.ct.Tick();
+                }
+                trace += "tick*" + std::to_string(1 + op.a % 7) + " ";
+                break;
+            case 3: {
+                uint64_t max = op.a % 3 == 0 ? op.a % 5 : (op.a % 3 == 1 ? op.a % (4 * (uint64_t)cs.period + 1) : op.a % 40);
+                bool empty_running = A.b.GetTransmitEnable() && A.b.GetTransmitEmpty();
+                uint64_t k = A.ct.Skip(max);
+                A.now += k;
+                trace += "skip(max=" + std::to_string(max) + ")=" + std::to_string(k) + " ";
+                if (k > max)
+                    return fail("C16:coretiming:k", "CoreTiming::Skip(" + std::to_string(max) + ") returned " + std::to_string(k), i);
+                for (uint64_t j = 0; j < k; ++j) {
+                    ++B.now;
+                    B.ct.Tick();
+                }
+                if (k >= 1) {
+                    nontrivial = true;
+                    vf::klass(empty_running ? "pair: bulk advance while transmitting with an empty queue" : "pair: bulk advance");
+                }
+                break;
+            }
+            case 4:
+                A.b.SetTransmitFlush(1);
+                B.b.SetTransmitFlush(1);
+                trace += "flush ";
+                break;
+            default:
+                A.tm.Restart();
+                B.tm.Restart();
+                trace += "timer-restart ";
+                break;
+            }
+        } catch (const TeakraVerifAssertFailure& e) {
+            return fail("C16:coretiming:assert:" + std::string(e.expression), std::string("assertion ") + e.expression + " on an in-contract operation", i);
+        }
+        if (A.frames.size() != B.frames.size() || !(A.frames == B.frames) || A.irqs != B.irqs || A.tirqs != B.tirqs ||
+            A.b.GetTransmitEmpty() != B.b.GetTransmitEmpty() || A.b.GetTransmitFull() != B.b.GetTransmitFull() || A.tm.counter != B.tm.counter)
+            return fail("C16:coretiming:twin", "after a bulk advance through CoreTiming the port differs from the ticked twin: " + std::to_string(A.frames.size()) + " vs " +
+                                                   std::to_string(B.frames.size()) + " frames, interrupts " + std::to_string(A.irqs) + " vs " + std::to_string(B.irqs) +
+                                                   ", empty " + std::to_string(A.b.GetTransmitEmpty()) + " vs " + std::to_string(B.b.GetTransmitEmpty()), i);
+    }
+    vf::note(vf::hash_str(pencode(cs)), nontrivial);
+    return vf::Result::pass();
+}
+rc::Gen<PCase> genPCase() {
+    using namespace rc;
+    auto opGen = gen::map(gen::pair(gen::weightedElement<int>({{3, 0}, {2, 1}, {2, 2}, {6, 3}, {1, 4}, {1, 5}}), gen::resize(100, gen::arbitrary<uint64_t>())),
+                          [](std::pair<int, uint64_t> p) { return POp{p.first, p.second}; });
+    return gen::map(gen::pair(gen::element<uint32_t>(1, 2, 3, 7, 16, 100, 100, 1000, 4096), gen::container<std::vector<POp>>(opGen)), [](std::pair<uint32_t, std::vector<POp>> p) {
+        PCase c;
+        c.period = p.first;
+        c.ops = p.second;
+        c.ops.insert(c.ops.begin(), POp{1, 1}); // enabled from the start
+        return c;
+    });
+}
+
 int main(int argc, char** argv) {
     vf::init(argc, argv, "C16");
     vf::Property<Case> p;
@@ -388,6 +526,17 @@ int main(int argc, char** argv) {
     p.encode = encode;
     p.decode = decode;
     p.max_size = 120;
+    p.share = 0.8;
     vf::run(p);
+
+    vf::Property<PCase> q;
+    q.name = "core_timing_btdmp";
+    q.gen = genPCase;
+    q.check = pcheck;
+    q.encode = pencode;
+    q.decode = pdecode;
+    q.max_size = 60;
+    q.share = 0.2;
+    vf::run(q);
     return vf::finish();
 }
